@@ -21,6 +21,25 @@ var props = []*PropDef{
 		},
 		Note: "Every BitList method is verified against the ghost bool-sequence model `model` with representation invariant inv(bl); the all-operation-sequences quantifier is the invariant (each method preserves inv and transforms model as the sequence semantics says).",
 	},
+	{
+		ID: "C09",
+		Funcs: []string{
+			"barcode.scale2DCode$1", "barcode.scale1DCode$1", "barcode.newScaledBC", "barcode.scale2DCode", "barcode.scale1DCode",
+			"barcode.ScaleWithFill", "barcode.Scale", "barcode.(*scaledBarcode).At", "barcode.(*scaledBarcode).Bounds",
+			"barcode.(*scaledBarcode).Content", "barcode.(*scaledBarcode).Metadata", "barcode.(*scaledBarcode).ColorModel",
+			"barcode.(*intCSscaledBC).CheckSum",
+			"barcode.lemmaDivMul", "barcode.lemmaBlock2D", "barcode.lemmaFill2D", "barcode.lemmaBlock1D", "barcode.lemmaFill1D",
+		},
+		Harness: []Harness{
+			{Pkg: ".", File: "c09_scale_test.go", Run: "TestVerifC09", Bound: "validation of assumption FL and of the interface contract on concrete fake barcodes: sources 1..40 modules, targets up to 5x incl. all residues, re-scaling of scaled results"},
+		},
+		Assumptions: []string{
+			"FL: float64 arithmetic in scale*DCode is modelled by exact rationals and int(min(a/b, c/d)) == min(a div b, c div d); holds for operands < 2^52 (conversions exact, quotient error < 1/(2b)); the contracts restrict widths/heights to <= 2^30; validated boundedly by the harness",
+			"interface contract: Bounds/At/Metadata/Content/ColorModel/CheckSum/ColorScheme of the source barcode are pure total functions (true of every library type: their contracts modify nothing; assumed for caller-supplied types)",
+			"source bounds satisfy Min < Max within +-2^30 (every library barcode has at least one module)",
+		},
+		Note: "Scale/ScaleWithFill/scale1DCode/scale2DCode, the two pixel closures, newScaledBC and every scaledBarcode accessor are verified against contracts; ghost lemma functions (zz_lemmas_verif.go, build tag verif) compose them into the statement: block grid of f x f copies, f maximal, centred within one pixel, fill elsewhere, pass-through accessors.",
+	},
 }
 
 func findProp(id string) *PropDef {
